@@ -36,7 +36,10 @@ Theorem C17_icmp4_timestamp_exact : forall bs, 8 <= len bs ->
 Proof. exact icmp4_timestamp_exact. Qed.
 Print Assumptions C17_icmp4_timestamp_exact.
 
-(* RFC-assigned types without a typed view in the crate are handed out raw *)
+(* RFC-assigned types without a typed view in the crate (4, 6, 9, 10, 15, 16, 17, 18) are not in the
+   typed tables.  This is a statement about the SPECIFICATION tables only (no model term): together
+   with C17_icmp4_unassigned it gives the statement about the model, which is stated on its own as
+   C17_icmp4_untyped_raw_model at the end of this file. *)
 Theorem C17_icmp4_untyped_raw : forall t c, In t icmp4_untyped_assigned ->
   lookup t c icmp4_table = None /\ lookup t c icmp4_fixed_table = None.
 Proof. exact icmp4_untyped_raw. Qed.
@@ -232,3 +235,145 @@ Proof.
   repeat split; try (vm_compute; reflexivity).
   apply bytes_okb_spec. vm_compute. reflexivity.
 Qed.
+
+(* ---- audit1-c17 ---- *)
+(* Audit round 1 follow-up.
+   (1) The typed NDP option slices constructed DIRECTLY from arbitrary bytes (not through the
+   iterator, where option id and length always fit): SourceLinkLayerAddressOptionSlice /
+   TargetLinkLayerAddressOptionSlice / PrefixInformationOptionSlice (= length check +
+   PrefixInformation::from_bytes, the checks of the owned PrefixInformation::from_slice) /
+   RedirectedHeaderOptionSlice / MtuOptionSlice / UnknownNdpOptionSlice ::from_slice.  For every
+   byte string each constructor equals the closed form below: which check fails first, the exact
+   `UnexpectedSize` / `UnexpectedHeader` / `ZeroLength` record (fields at the RFC 4861 4.6 offsets:
+   Type = octet 0, Length = octet 1 in units of 8 octets; the error records are crate API), accept
+   iff the option has the RFC shape; never an out-of-range unwrap / index (no NUB).
+   (2) C17_icmp4_untyped_raw above is a statement about the specification tables only;
+   C17_icmp4_untyped_raw_model is the statement about the model. *)
+From EP Require Import CtlMsg.NdpOptCtors.
+
+(* Source (expected = 1) / Target (expected = 2) link-layer address option *)
+Theorem C17_ndp_ctor_link_layer : forall expected s,
+  Ndp.link_layer_from_slice expected s =
+    if len s <? 2 then Ndp.NErr (UnexpectedSize (byte_at s 0) 2 (len s))
+    else if negb (byte_at s 0 =? expected) then
+      Ndp.NErr (UnexpectedHeader expected (byte_at s 0) (byte_at s 1) (byte_at s 1))
+    else if byte_at s 1 =? 0 then Ndp.NErr (ZeroLength (byte_at s 0))
+    else if negb (byte_at s 1 * 8 =? len s) then
+      Ndp.NErr (UnexpectedSize (byte_at s 0) (byte_at s 1 * 8) (len s))
+    else Ndp.NOk s.
+Proof. exact link_layer_ctor_eq. Qed.
+Print Assumptions C17_ndp_ctor_link_layer.
+
+(* Prefix information: exactly 32 octets, then Type 3 and Length 4 *)
+Theorem C17_ndp_ctor_prefix : forall s,
+  Ndp.prefix_information_from_slice s =
+    if negb (len s =? 32) then Ndp.NErr (UnexpectedSize 3 32 (len s))
+    else if (byte_at s 0 =? 3) && (byte_at s 1 =? 4) then Ndp.NOk s
+    else Ndp.NErr (UnexpectedHeader 3 (byte_at s 0) 4 (byte_at s 1)).
+Proof. exact prefix_ctor_eq. Qed.
+Print Assumptions C17_ndp_ctor_prefix.
+
+(* Redirected header: at least the 8 fixed octets, Type 4, Length <> 0, Length * 8 = size *)
+Theorem C17_ndp_ctor_redirected : forall s,
+  Ndp.redirected_header_from_slice s =
+    if len s <? 8 then Ndp.NErr (UnexpectedSize 4 8 (len s))
+    else if negb (byte_at s 0 =? 4) then
+      Ndp.NErr (UnexpectedHeader 4 (byte_at s 0) (byte_at s 1) (byte_at s 1))
+    else if byte_at s 1 =? 0 then Ndp.NErr (ZeroLength (byte_at s 0))
+    else if negb (byte_at s 1 * 8 =? len s) then
+      Ndp.NErr (UnexpectedSize (byte_at s 0) (byte_at s 1 * 8) (len s))
+    else Ndp.NOk s.
+Proof. exact redirected_ctor_eq. Qed.
+Print Assumptions C17_ndp_ctor_redirected.
+
+(* MTU: exactly 8 octets, then Type 5 and Length 1 *)
+Theorem C17_ndp_ctor_mtu : forall s,
+  Ndp.mtu_from_slice s =
+    if negb (len s =? 8) then Ndp.NErr (UnexpectedSize 5 8 (len s))
+    else if (byte_at s 0 =? 5) && (byte_at s 1 =? 1) then Ndp.NOk s
+    else Ndp.NErr (UnexpectedHeader 5 (byte_at s 0) 1 (byte_at s 1)).
+Proof. exact mtu_ctor_eq. Qed.
+Print Assumptions C17_ndp_ctor_mtu.
+
+(* Unknown option slice: the generic rule only, the type octet is not looked at *)
+Theorem C17_ndp_ctor_unknown : forall s,
+  Ndp.unknown_from_slice s =
+    if len s <? 2 then Ndp.NErr (UnexpectedSize (byte_at s 0) 2 (len s))
+    else if byte_at s 1 =? 0 then Ndp.NErr (ZeroLength (byte_at s 0))
+    else if negb (byte_at s 1 * 8 =? len s) then
+      Ndp.NErr (UnexpectedSize (byte_at s 0) (byte_at s 1 * 8) (len s))
+    else Ndp.NOk s.
+Proof. exact unknown_ctor_eq. Qed.
+Print Assumptions C17_ndp_ctor_unknown.
+
+(* acceptance, all six constructors (typed_ctor k = the constructor of kind k): exactly the
+   options with at least Type and Length, the constructor's Type, Length <> 0, size Length * 8
+   and -- for the typed kinds -- the fixed Length of the type (3: 4, 5: 1) *)
+Theorem C17_ndp_ctor_accept_iff : forall k s,
+  (exists r, typed_ctor k s = Ndp.NOk r) <->
+  exists ty lu tl, s = ty :: lu :: tl /\ kind_type_ok k ty /\ lu <> 0 /\ len s = lu * 8 /\
+    (k <> KUnknownOpt -> forall u, opt_fixed_units ty = Some u -> lu = u).
+Proof. exact typed_ctor_accept_iff. Qed.
+Print Assumptions C17_ndp_ctor_accept_iff.
+Check (eq_refl : typed_ctor =
+  fun k s => match k with
+             | KSrcLL => Ndp.link_layer_from_slice 1 s
+             | KTgtLL => Ndp.link_layer_from_slice 2 s
+             | KPrefix => Ndp.prefix_information_from_slice s
+             | KRedir => Ndp.redirected_header_from_slice s
+             | KMtu => Ndp.mtu_from_slice s
+             | KUnknownOpt => Ndp.unknown_from_slice s
+             end).
+Check (eq_refl : kind_type_ok =
+  fun k ty => match k with
+              | KSrcLL => ty = 1 | KTgtLL => ty = 2 | KPrefix => ty = 3 | KRedir => ty = 4
+              | KMtu => ty = 5 | KUnknownOpt => True
+              end).
+
+(* an accepted slice is the input; for the five typed kinds it has the option shape of the
+   specification and its accessors return the RFC fields *)
+Theorem C17_ndp_ctor_ok : forall k s r, typed_ctor k s = Ndp.NOk r ->
+  r = s /\ (k <> KUnknownOpt -> opt_shape_ok k s /\ Ndp.opt_accessors k s = Ok (opt_view k s)).
+Proof. exact typed_ctor_ok. Qed.
+Print Assumptions C17_ndp_ctor_ok.
+
+Theorem C17_ndp_ctor_no_ub : forall k s n, typed_ctor k s <> Ndp.NUB n.
+Proof. exact typed_ctor_no_ub. Qed.
+Print Assumptions C17_ndp_ctor_no_ub.
+
+(* the model hands every message of an RFC-assigned type without a typed view (4, 6, 9, 10, 15,
+   16, 17, 18), with any code, out in the raw form with header length 8 *)
+Theorem C17_icmp4_untyped_raw_model : forall bs, 8 <= len bs ->
+  In (byte_at bs 0) icmp4_untyped_assigned ->
+  Icmpv4Slice.view bs =
+    Ok (V4Unknown (byte_at bs 0) (byte_at bs 1) (byte_at bs 4) (byte_at bs 5) (byte_at bs 6) (byte_at bs 7),
+        8, drop 8 bs).
+Proof. exact icmp4_untyped_raw_model. Qed.
+Print Assumptions C17_icmp4_untyped_raw_model.
+Check (eq_refl : icmp4_untyped_assigned = [4; 6; 9; 10; 15; 16; 17; 18]).
+
+(* non-vacuity: a prefix option read as MTU / with a wrong Length / one octet short; an MTU option
+   with Type 3; a link-layer option of the other kind; redirected header shorter than 8 *)
+Example C17_ex_ndp_ctors :
+  let pfx := [3; 4; 64; 192; 0; 0; 0; 1; 0; 0; 0; 2; 0; 0; 0; 0;
+              254; 128; 0; 0; 0; 0; 0; 0; 0; 0; 0; 0; 0; 0; 0; 1] in
+  Ndp.prefix_information_from_slice pfx = Ndp.NOk pfx /\
+  Ndp.opt_accessors KPrefix pfx =
+    Ok (OvPrefix 64 true true 1 2 [254; 128; 0; 0; 0; 0; 0; 0; 0; 0; 0; 0; 0; 0; 0; 1]) /\
+  Ndp.prefix_information_from_slice (5 :: tl pfx) = Ndp.NErr (UnexpectedHeader 3 5 4 4) /\
+  Ndp.prefix_information_from_slice (3 :: 5 :: tl (tl pfx)) = Ndp.NErr (UnexpectedHeader 3 3 4 5) /\
+  Ndp.prefix_information_from_slice (tl pfx) = Ndp.NErr (UnexpectedSize 3 32 31) /\
+  Ndp.mtu_from_slice [3; 1; 0; 0; 0; 0; 5; 220] = Ndp.NErr (UnexpectedHeader 5 3 1 1) /\
+  Ndp.mtu_from_slice [5; 1; 0; 0; 0; 0; 5; 220] = Ndp.NOk [5; 1; 0; 0; 0; 0; 5; 220] /\
+  Ndp.link_layer_from_slice 1 [2; 1; 1; 2; 3; 4; 5; 6] = Ndp.NErr (UnexpectedHeader 1 2 1 1) /\
+  Ndp.link_layer_from_slice 2 [2; 1; 1; 2; 3; 4; 5; 6] = Ndp.NOk [2; 1; 1; 2; 3; 4; 5; 6] /\
+  Ndp.link_layer_from_slice 1 [1] = Ndp.NErr (UnexpectedSize 1 2 1) /\
+  Ndp.redirected_header_from_slice [4; 1; 0; 0] = Ndp.NErr (UnexpectedSize 4 8 4) /\
+  Ndp.redirected_header_from_slice [4; 2; 0; 0; 0; 0; 0; 0] = Ndp.NErr (UnexpectedSize 4 16 8) /\
+  Ndp.unknown_from_slice [3; 1; 0; 0; 0; 0; 0; 0] = Ndp.NOk [3; 1; 0; 0; 0; 0; 0; 0].
+Proof. cbv zeta. repeat split; vm_compute; reflexivity. Qed.
+Example C17_ex_icmp4_untyped_model : 8 <= len [6; 9; 0; 0; 1; 2; 3; 4; 5] /\
+  In (byte_at [6; 9; 0; 0; 1; 2; 3; 4; 5] 0) icmp4_untyped_assigned /\
+  Icmpv4Slice.view [6; 9; 0; 0; 1; 2; 3; 4; 5] = Ok (V4Unknown 6 9 1 2 3 4, 8, [5]).
+Proof. split; [vm_compute; discriminate|]. split; [cbn; tauto|vm_compute; reflexivity]. Qed.
+(* ---- end audit1-c17 ---- *)
